@@ -202,7 +202,7 @@ theorem offer_complete {kind : Kind} (hk : kind ≠ .keyref) (table : List Tuple
     {r : List (FRes Val)} {t : List Val} (h : complete? r = some t) (hr : r ≠ []) :
     offer kind table r =
       (wrap t :: table, if table.count (wrap t) = 1 then some .dup else none) := by
-  simp [offer, tupleOf_complete kind 0 h, hk, wrap_any_some (complete_ne_nil h hr)]
+  simp [offer, tupleOf_complete kind 0 h, hk, wrap_any_some (complete_ne_nil h hr), wrap_any_none]
 
 theorem offer_keyref_complete (table : List Tuple) {r : List (FRes Val)} {t : List Val}
     (h : complete? r = some t) : offer .keyref table r = (wrap t :: table, none) := by
@@ -256,11 +256,22 @@ theorem allAbsent_any_some {r : List (FRes Val)} (h : ∀ x ∈ r, x = FRes.abse
     simp [toOpt] at this ⊢
     exact this
 
-/-- a row without any field leaves a unique counter unchanged (elements.py:914) -/
+/-- a row without any field leaves a unique counter unchanged (elements.py:942) -/
 theorem offer_unique_allAbsent (table : List Tuple) {r : List (FRes Val)}
     (h : ∀ x ∈ r, x = FRes.absent) : offer .unique table r = (table, none) := by
   have hm : FRes.multi ∉ r := fun hm => by have := h _ hm; cases this
   simp [offer, tupleOf_nokey_ok (kind := .unique) (by decide) 0 hm, allAbsent_any_some h]
+
+/-- a row lacking a field (all of them, or only some: elements.py:939-942) leaves a unique counter
+    unchanged and raises nothing -/
+theorem offer_unique_incomplete (table : List Tuple) {r : List (FRes Val)}
+    (hm : FRes.multi ∉ r) (hc : complete? r = none) : offer .unique table r = (table, none) := by
+  have h1 := tupleOf_nokey_ok (kind := .unique) (by decide) 0 hm
+  have h2 := map_toOpt_any_none hm hc
+  by_cases h3 : (r.map toOpt).any Option.isSome = true
+  · simp only [offer, h1, h2, h3]; simp
+  · have h3' : (r.map toOpt).any Option.isSome = false := by simpa using h3
+    simp only [offer, h1, h2, h3']; simp
 
 /-! ### decimal normalisation -/
 
